@@ -556,7 +556,9 @@ and gen_binding st env d : item list * env =
   let ty = rand_type st in
   let isvar = Rng.pct st.rng (100 * w st "it_var" / (1 + w st "it_var" + w st "it_let")) in
   let e = if isvar then gen_nonconst st env ty d else fst (gen_expr st env ty d ~op:false) in
-  let n = new_name st env in
+  (* the new name may not be one that a closure inside e captures (see `forbid`) *)
+  let cf = if w st "late_shadow" > 0 then [] else (let acc = ref IS.empty in Uniq.closure_free_expr acc e; IS.elements !acc) in
+  let n = new_name ~avoid:cf st env in
   let v = mkv n ty (if isvar then BVar else BLet) env.lvl in
   ([if isvar then IVar (n_of_int n, e) else ILet (n_of_int n, e)], bind env v)
 
